@@ -244,30 +244,34 @@ Lemma compact_spec first rest c :
   (forall p, pm_get p (f_pages c) = if p <=? f_commit c then newest p (map f_pages fs) else None) /\
   pm_get (lockPgno (f_ps first)) (f_pages c) = None.
 Proof.
-  intros fs Hs H. unfold compact in H. fold fs in H.
-  destruct (forallb hdr_valid fs); simpl in H; [|discriminate].
+  intros fs Hs H. subst fs. unfold compact in H.
+  destruct (forallb hdr_valid (first :: rest)); cbn [negb] in H; [|discriminate].
   destruct (check_pairs first rest); [discriminate|].
-  destruct (merge_loop (S (total_len (map f_pages fs))) (is_snapshot first) (lockPgno (f_ps first))
-                       (f_commit (last fs first)) (map f_pages fs) 0) as [pgs|] eqn:EM; [|discriminate].
-  destruct (enc_close_ok (f_commit (last fs first))) eqn:EC; [|discriminate].
-  inversion H; subst c; clear H. simpl.
-  assert (Hs' : Forall (sorted_gt 0) (map f_pages fs)).
+  assert (Hs' : Forall (sorted_gt 0) (map f_pages (first :: rest))).
   { clear -Hs. induction Hs; simpl; constructor; assumption. }
-  destruct (merge_loop_spec _ _ _ _ _ 0 0 pgs Hs' ltac:(lia) EM) as [M1 [M2 M3]].
-  unfold fs at 3 4. rewrite last_final.
-  repeat split; try reflexivity; try assumption.
-  - unfold enc_close_ok in EC. unfold fs in EC. rewrite last_final in EC.
-    destruct (N.eqb_spec (final_commit (f_commit first) rest) 0); [discriminate|lia].
-  - intros p. rewrite M2. unfold fs. rewrite last_final. reflexivity.
-  - destruct (pm_get (lockPgno (f_ps first)) pgs) eqn:E; [|reflexivity].
-    exfalso. apply (M3 (lockPgno (f_ps first))); [congruence|reflexivity].
+  assert (HL : last (first :: rest) first = last (first :: rest) first) by reflexivity.
+  pose proof (last_final first rest first) as HF.
+  remember (last (first :: rest) first) as lst eqn:El.
+  match type of H with context [merge_loop ?a ?b ?c ?d ?e ?f] =>
+    destruct (merge_loop a b c d e f) as [pgs|] eqn:EM end; [|discriminate].
+  destruct (enc_close_ok (f_commit lst)) eqn:EC; [|discriminate].
+  inversion H; subst c; clear H. cbn [f_ps f_min f_max f_ts f_commit f_pages].
+  rewrite HF in *.
+  destruct (merge_loop_spec _ _ _ _ _ 0 0 pgs Hs' (PeanoNat.Nat.lt_succ_diag_r _) EM) as [M1 [M2 M3]].
+  split; [reflexivity|]. split; [reflexivity|]. split; [reflexivity|]. split; [reflexivity|].
+  split; [reflexivity|]. split.
+  { unfold enc_close_ok in EC.
+    destruct (N.eqb_spec (final_commit (f_commit first) rest) 0); [discriminate|lia]. }
+  split; [assumption|]. split; [exact M2|].
+  destruct (pm_get (lockPgno (f_ps first)) pgs) eqn:E; [|reflexivity].
+  exfalso. apply (M3 (lockPgno (f_ps first))); [congruence|reflexivity].
 Qed.
 
 (** the compactor never fails for lack of fuel *)
 Lemma compact_fuel fs : Forall (fun f => sorted_gt 0 (f_pages f)) fs -> compact fs <> Err E_FUEL.
 Proof.
   intros Hs. unfold compact. destruct fs as [|first rest]; [discriminate|].
-  destruct (forallb hdr_valid (first :: rest)); simpl; [|discriminate].
+  destruct (forallb hdr_valid (first :: rest)); cbn [negb]; [|discriminate].
   destruct (check_pairs first rest) as [e|] eqn:EC.
   { clear -EC. revert first EC. induction rest as [|g tl IH]; intros first EC; simpl in EC; [discriminate|].
     destruct (negb (f_ps first =? f_ps g)); [inversion EC; discriminate|].
@@ -275,10 +279,13 @@ Proof.
     apply (IH g). assumption. }
   assert (Hs' : Forall (sorted_gt 0) (map f_pages (first :: rest))).
   { clear -Hs. induction Hs; simpl; constructor; assumption. }
-  pose proof (merge_loop_fuel (is_snapshot first) (lockPgno (f_ps first)) (f_commit (last (first :: rest) first))
-                (S (total_len (map f_pages (first :: rest)))) _ 0 0 Hs' ltac:(lia)) as HF.
-  destruct (merge_loop _ _ _ _ _ _) as [pgs|e]; [|intros Hc; inversion Hc; subst; apply HF; reflexivity].
-  destruct (enc_close_ok _); discriminate.
+  remember (last (first :: rest) first) as lst eqn:El.
+  pose proof (merge_loop_fuel (is_snapshot first) (lockPgno (f_ps first)) (f_commit lst)
+                (S (total_len (map f_pages (first :: rest)))) _ 0 0 Hs' (PeanoNat.Nat.lt_succ_diag_r _)) as HF.
+  destruct (merge_loop (S (total_len (map f_pages (first :: rest)))) (is_snapshot first)
+                       (lockPgno (f_ps first)) (f_commit lst) (map f_pages (first :: rest)) 0) as [pgs|e];
+    [|congruence].
+  destruct (enc_close_ok (f_commit lst)); discriminate.
 Qed.
 
 (** ---- sequential application ----------------------------------------------------------- *)
@@ -415,6 +422,15 @@ Qed.
 
 (** ---- the lock page ---------------------------------------------------------------------------- *)
 
+Lemma newest_some_in p : forall fs,
+  newest p (map f_pages fs) <> None -> exists f, In f fs /\ pm_get p (f_pages f) <> None.
+Proof.
+  induction fs as [|f tl IH]; simpl; intros Hp; [congruence|].
+  destruct (newest p (map f_pages tl)) eqn:E.
+  - destruct IH as [g [Hg1 Hg2]]; [congruence|]. exists g. split; [right; assumption|assumption].
+  - exists f. split; [left; reflexivity|assumption].
+Qed.
+
 (** compact_never_adds_lock: the output never holds the lock page, and holds
     no page that no input holds *)
 Theorem compact_never_adds_lock first rest c :
@@ -426,15 +442,12 @@ Theorem compact_never_adds_lock first rest c :
 Proof.
   intros fs Hs H. destruct (compact_spec first rest c Hs H) as [_ [_ [_ [_ [_ [_ [_ [C8 C9]]]]]]]].
   split; [assumption|]. intros p Hp. rewrite C8 in Hp. destruct (p <=? f_commit c); [|congruence].
-  clear -Hp. induction fs as [|f tl IH]; simpl in Hp; [congruence|].
-  destruct (newest p (map f_pages tl)) eqn:E.
-  - destruct IH as [g [Hg1 Hg2]]; [congruence|]. exists g. split; [right; assumption|assumption].
-  - exists f. split; [left; reflexivity|assumption].
+  apply newest_some_in. exact Hp.
 Qed.
 
 (** ---- what the encoder accepted is well-formed ---------------------------------------------------- *)
 
-Lemma enc_run_sorted s lock c : forall l prev,
+Lemma enc_run_sorted s lock c : forall (l : pages) prev,
   enc_run s lock c prev (map fst l) = None -> (prev = 0 -> True) ->
   sorted_gt prev l \/ (s = true /\ prev = 0 /\ sorted_gt 0 l).
 Proof.
@@ -447,7 +460,7 @@ Proof.
   - right. split; [assumption|]. split; [assumption|]. split; [lia|assumption].
 Qed.
 
-Lemma enc_run_bounds s lock c : forall l prev p,
+Lemma enc_run_bounds s lock c : forall (l : pages) prev p,
   enc_run s lock c prev (map fst l) = None -> pm_get p l <> None -> p <= c /\ p <> lock.
 Proof.
   induction l as [|[q v] tl IH]; intros prev p H Hp; simpl in *; [congruence|].
@@ -468,4 +481,225 @@ Proof.
       exfalso. destruct (enc_run_bounds _ _ _ _ _ p E); [congruence|lia].
     + destruct (pm_get (lockPgno (f_ps f)) (f_pages f)) eqn:G; [|reflexivity].
       exfalso. destruct (enc_run_bounds _ _ _ _ _ (lockPgno (f_ps f)) E); [congruence|congruence].
+Qed.
+
+(** ---- plans: any mix of levels restores to the same image ----------------------------------------- *)
+
+Lemma apply_img_eq a b f : img_eq a b -> img_eq (apply a f) (apply b f).
+Proof.
+  intros [H1 H2]. split; [reflexivity|]. intros p. rewrite !img_get_apply, H2. reflexivity.
+Qed.
+
+Lemma apply_all_img_eq fs : forall a b, img_eq a b -> img_eq (apply_all a fs) (apply_all b fs).
+Proof.
+  induction fs as [|f tl IH]; intros a b H; [exact H|].
+  change (img_eq (apply_all (apply a f) tl) (apply_all (apply b f) tl)). apply IH. apply apply_img_eq. exact H.
+Qed.
+
+Lemma apply_all_app d a b : apply_all d (a ++ b) = apply_all (apply_all d a) b.
+Proof. unfold apply_all. apply fold_left_app. Qed.
+
+Lemma final_commit_app prev a b : final_commit prev (a ++ b) = final_commit (final_commit prev a) b.
+Proof. unfold final_commit. apply fold_left_app. Qed.
+
+Lemma gc_chain_app lock : forall a prev b,
+  gc_chain lock prev (a ++ b) <-> gc_chain lock prev a /\ gc_chain lock (final_commit prev a) b.
+Proof.
+  induction a as [|f tl IH]; intros prev b; simpl; [tauto|].
+  rewrite IH. fold (final_commit (f_commit f) tl). tauto.
+Qed.
+
+Lemma apply_all_lock_zero lock : forall fs d,
+  Forall (wf_file lock) fs -> img_get d lock = zero_page -> img_get (apply_all d fs) lock = zero_page.
+Proof.
+  induction fs as [|f tl IH]; intros d Hw Hz; [exact Hz|].
+  inversion Hw as [|? ? [_ [_ W3]] Wt]; subst.
+  change (apply_all d (f :: tl)) with (apply_all (apply d f) tl). apply IH; [assumption|].
+  apply apply_lock_zero; assumption.
+Qed.
+
+Lemma img_empty_get p : img_get img_empty p = zero_page.
+Proof. unfold img_get. simpl. destruct ((1 <=? p) && (p <=? 0)); reflexivity. Qed.
+
+(** one compaction step of a store: a non-empty run of files of the chain is
+    replaced by the compactor's output *)
+Definition compacts1 (lock : N) (piece : list ltx) (c : ltx) : Prop :=
+  exists first rest, piece = first :: rest /\ lockPgno (f_ps first) = lock /\ compact piece = Ok c.
+
+(** growth-closedness and well-formedness are preserved by compaction *)
+Lemma compacts1_props lock prev piece c :
+  compacts1 lock piece c -> Forall (wf_file lock) piece -> gc_chain lock prev piece ->
+  wf_file lock c /\ growth_closed lock prev c /\ f_commit c = final_commit prev piece /\
+  lockPgno (f_ps c) = lock.
+Proof.
+  intros [first [rest [-> [Hl H]]]] Hw Hg.
+  assert (Hs : Forall (fun f => sorted_gt 0 (f_pages f)) (first :: rest)).
+  { clear -Hw. induction Hw as [|? ? [? _] ? IH]; constructor; assumption. }
+  destruct (compact_spec first rest c Hs H) as [C1 [C2 [C3 [C4 [C5 [C6 [C7 [C8 C9]]]]]]]].
+  split; [|split; [|split]].
+  - split; [assumption|]. split; [|rewrite <- Hl; assumption].
+    intros p Hp. rewrite C8. destruct (N.leb_spec p (f_commit c)); [lia|reflexivity].
+  - intros p Hp Hne. rewrite C8. destruct (N.leb_spec p (f_commit c)); [|lia].
+    apply (gc_covers lock (first :: rest) prev p Hg); [|assumption].
+    change (final_commit prev (first :: rest)) with (final_commit (f_commit first) rest). lia.
+  - exact C5.
+  - rewrite C1. exact Hl.
+Qed.
+
+Lemma apply_all_pieces lock : forall pieces cs,
+  Forall2 (compacts1 lock) pieces cs ->
+  forall d, Forall (wf_file lock) (concat pieces) -> gc_chain lock (isz d) (concat pieces) ->
+  img_get d lock = zero_page ->
+  img_eq (apply_all d cs) (apply_all d (concat pieces)) /\
+  Forall (wf_file lock) cs /\ gc_chain lock (isz d) cs /\
+  Forall (fun c => lockPgno (f_ps c) = lock) cs.
+Proof.
+  induction 1 as [|piece c ps cs' Hc Hrest IH]; intros d Hw Hg Hz.
+  - simpl. split; [apply img_eq_refl|]. split; [constructor|]. split; [exact I|constructor].
+  - simpl in Hw, Hg. apply Forall_app in Hw. destruct Hw as [Hw1 Hw2].
+    apply gc_chain_app in Hg. destruct Hg as [Hg1 Hg2].
+    destruct (compacts1_props lock (isz d) piece c Hc Hw1 Hg1) as [P1 [P2 [P3 P4]]].
+    destruct Hc as [first [rest [-> [Hl Hcomp]]]].
+    assert (Heq : img_eq (apply d c) (apply_all d (first :: rest))).
+    { subst lock. apply (compact_equiv first rest d c); assumption. }
+    assert (Hz1 : img_get (apply d c) lock = zero_page).
+    { apply apply_lock_zero; [assumption|]. destruct P1 as [_ [_ ?]]. assumption. }
+    assert (Hg2' : gc_chain lock (isz (apply d c)) (concat ps)).
+    { simpl. rewrite P3. exact Hg2. }
+    destruct (IH (apply d c) Hw2 Hg2' Hz1) as [I1 [I2 [I3 I4]]].
+    split; [|split; [constructor; assumption|split; [|constructor; assumption]]].
+    + change (apply_all d (c :: cs')) with (apply_all (apply d c) cs').
+      change (concat ((first :: rest) :: ps)) with ((first :: rest) ++ concat ps).
+      rewrite (apply_all_app d (first :: rest) (concat ps)).
+      apply (img_eq_trans _ _ _ I1). apply apply_all_img_eq. exact Heq.
+    + simpl. split; [assumption|]. exact I3.
+Qed.
+
+(** plan_independent (file level): two chains obtained from the same level-0
+    chain by compacting runs of it — any mix of levels, including a snapshot
+    [1..p] — restore to the same database.  (With C08, which shows every plan of
+    CalcRestorePlan is such a chain, and by iterating the statement for
+    compactions of compacted files.) *)
+Theorem plan_independent lock l0s pieces1 cs1 pieces2 cs2 r1 r2 :
+  concat pieces1 = l0s -> concat pieces2 = l0s ->
+  Forall2 (compacts1 lock) pieces1 cs1 -> Forall2 (compacts1 lock) pieces2 cs2 ->
+  Forall (wf_file lock) l0s -> gc_chain lock 0 l0s ->
+  restore cs1 = Ok r1 -> restore cs2 = Ok r2 ->
+  img_eq r1 r2.
+Proof.
+  intros E1 E2 H1 H2 Hw Hg R1 R2.
+  assert (Hz : img_get img_empty lock = zero_page) by apply img_empty_get.
+  assert (K : forall pieces cs r, concat pieces = l0s -> Forall2 (compacts1 lock) pieces cs ->
+                                  restore cs = Ok r -> img_eq r (apply_all img_empty l0s)).
+  { intros pieces cs r E H R.
+    assert (Hw' : Forall (wf_file lock) (concat pieces)) by (rewrite E; exact Hw).
+    assert (Hg' : gc_chain lock (isz img_empty) (concat pieces)) by (rewrite E; exact Hg).
+    rewrite <- E.
+    destruct (apply_all_pieces lock pieces cs H img_empty Hw' Hg' Hz) as [A1 [A2 [A3 A4]]].
+    unfold restore in R. destruct (compact cs) as [c|] eqn:EC; [|discriminate].
+    apply decode_is_apply in R.
+    destruct cs as [|first rest]; [discriminate|].
+    assert (L1 : lockPgno (f_ps first) = lock) by (inversion A4; assumption).
+    pose proof (compact_equiv first rest img_empty c) as CE. cbv zeta in CE. rewrite L1 in CE.
+    destruct (CE A2 A3 Hz EC) as [CE1 _].
+    apply (img_eq_trans _ _ _ R). apply (img_eq_trans _ _ _ CE1). exact A1. }
+  apply (img_eq_trans _ (apply_all img_empty l0s)).
+  - apply (K pieces1 cs1); assumption.
+  - apply img_eq_sym. apply (K pieces2 cs2); assumption.
+Qed.
+
+(** a snapshot (or any compacted file) decodes to the in-order application of
+    the level-0 files it covers *)
+Corollary snapshot_equiv first rest c r :
+  let fs := first :: rest in
+  let lock := lockPgno (f_ps first) in
+  Forall (wf_file lock) fs -> gc_chain lock 0 fs ->
+  compact fs = Ok c -> decode_db c = Ok r ->
+  img_eq r (apply_all img_empty fs).
+Proof.
+  intros fs lock Hw Hg Hc Hd.
+  destruct (compact_equiv first rest img_empty c Hw Hg (img_empty_get _) Hc) as [CE _].
+  apply decode_is_apply in Hd. apply (img_eq_trans _ _ _ Hd). exact CE.
+Qed.
+
+(** ---- TXID ranges ------------------------------------------------------------------------------------ *)
+
+Fixpoint txid_chain (prevMax : N) (fs : list ltx) : Prop :=
+  match fs with
+  | [] => True
+  | f :: tl => f_min f = prevMax + 1 /\ f_min f <= f_max f /\ txid_chain (f_max f) tl
+  end.
+
+(** a strict chain is what IsContiguous accepts *)
+Lemma txid_chain_check first : forall rest,
+  txid_chain (f_max first) rest -> Forall (fun f => f_ps f = f_ps first) rest ->
+  check_pairs first rest = None.
+Proof.
+  intros rest. revert first. induction rest as [|g tl IH]; intros first Ht Hp; simpl; [reflexivity|].
+  destruct Ht as [T1 [T2 T3]]. inversion Hp as [|? ? P1 P2]; subst.
+  rewrite P1, N.eqb_refl. simpl. unfold is_contiguous.
+  destruct (N.leb_spec (f_min g) (f_max first + 1)); [|lia].
+  destruct (N.ltb_spec (f_max first) (f_max g)); [|lia]. simpl.
+  apply IH; [assumption|]. clear -P1 P2. induction P2; constructor; [congruence|assumption].
+Qed.
+
+(** the output range first.min..last.max is exactly the union of the input ranges *)
+Lemma txid_chain_union : forall fs prevMax t,
+  fs <> [] -> txid_chain prevMax fs ->
+  (prevMax + 1 <= t <= fold_left (fun _ f => f_max f) fs prevMax <->
+   exists f, In f fs /\ f_min f <= t <= f_max f).
+Proof.
+  induction fs as [|f tl IH]; intros prevMax t Hne Ht; [contradiction|].
+  destruct Ht as [T1 [T2 T3]]. simpl fold_left.
+  destruct tl as [|g tl'].
+  - simpl. split.
+    + intros H. exists f. split; [left; reflexivity|lia].
+    + intros [f' [[<-|[]] H]]. lia.
+  - specialize (IH (f_max f) t ltac:(discriminate) T3).
+    assert (Hmono : f_max f <= fold_left (fun _ f0 => f_max f0) (g :: tl') (f_max f)).
+    { clear -T3. revert T3. generalize (f_max f) as m. generalize (g :: tl') as l.
+      induction l as [|h l IHl]; intros m Hc; simpl; [lia|].
+      destruct Hc as [C1 [C2 C3]]. specialize (IHl (f_max h) C3). lia. }
+    split.
+    + intros H. destruct (N.le_gt_cases t (f_max f)).
+      * exists f. split; [left; reflexivity|lia].
+      * destruct (proj1 IH ltac:(lia)) as [f' [Hin Hr]]. exists f'. split; [right; assumption|assumption].
+    + intros [f' [[<-|Hin] Hr]]; [lia|].
+      destruct (proj2 IH (ex_intro _ f' (conj Hin Hr))). lia.
+Qed.
+
+(** ---- associativity --------------------------------------------------------------------------------- *)
+
+(** compact_assoc_partial: compacting compacted pieces and compacting the
+    originals give files with the same effect on EVERY base image (same pages,
+    same size) — which is all a restore or a further compaction can observe of
+    the page block.
+    Missing for the full statement [compact cs = compact (concat pieces)]:
+    (1) syntactic equality of the two page lists (both are strictly sorted and
+    agree on every lookup, so it needs only the extensionality lemma for sorted
+    association lists), (2) equality of MinTXID/MaxTXID/Timestamp (needs
+    [last (concat pieces)] = last of the last piece), (3) that one compaction
+    succeeds iff the other does.  The correspondence run checks all three on
+    the real compactor (harness oracle "compaction-not-associative"). *)
+Theorem compact_assoc_partial lock pieces cs c c' d :
+  Forall2 (compacts1 lock) pieces cs ->
+  Forall (wf_file lock) (concat pieces) -> gc_chain lock (isz d) (concat pieces) ->
+  img_get d lock = zero_page ->
+  compact cs = Ok c -> compact (concat pieces) = Ok c' ->
+  img_eq (apply d c) (apply d c') /\ f_commit c = f_commit c'.
+Proof.
+  intros H Hw Hg Hz Hc Hc'.
+  destruct (apply_all_pieces lock pieces cs H d Hw Hg Hz) as [A1 [A2 [A3 A4]]].
+  destruct cs as [|c1 crest]; [discriminate|].
+  assert (L1 : lockPgno (f_ps c1) = lock) by (inversion A4; assumption).
+  pose proof (compact_equiv c1 crest d c) as CE. cbv zeta in CE. rewrite L1 in CE.
+  destruct (CE A2 A3 Hz Hc) as [CE1 _].
+  destruct (concat pieces) as [|first rest] eqn:EF; [discriminate|].
+  assert (L2 : lockPgno (f_ps first) = lock).
+  { inversion H as [|piece ? ps ? [f0 [r0 [-> [Hl _]]]] _]; subst. simpl in EF. inversion EF; subst. exact Hl. }
+  pose proof (compact_equiv first rest d c') as CE'. cbv zeta in CE'. rewrite L2 in CE'.
+  destruct (CE' Hw Hg Hz Hc') as [CE2 _].
+  assert (E : img_eq (apply d c) (apply d c')).
+  { apply (img_eq_trans _ _ _ CE1). apply (img_eq_trans _ _ _ A1). apply img_eq_sym. exact CE2. }
+  split; [exact E|]. destruct E as [E1 _]. exact E1.
 Qed.
